@@ -37,6 +37,9 @@ def cases(tier, seed):
                 b = rng.choice([nI, rng.randrange(a + 2, nI + 1)]) if a + 2 <= nI else nI
                 d = rng.choice([nX, rng.randrange(c + 2, nX + 1)]) if c + 2 <= nX else nX
                 wins.append([a, b, c, d])
+        # windows exactly one line thick on one axis (max = min + 1 is a window like any other: a one-line 3D file)
+        a1, c1 = rng.randrange(nI), rng.randrange(nX)
+        wins += [[a1, a1 + 1, 0, nX], [0, nI, c1, c1 + 1]]
         out.append({'id': 'win:%d' % i, 'src': src, 'windows': wins, 'reduce_iops': i % 2 == 1, 'detection': ['thorough', 'heuristic', 'exhaustive', 'strip'][i % 4],
                     'route': 'cli' if i % 5 == 4 else 'api', 'rate': rng.choice([4, 8, 2]), 'bs': rng.choice([[4, 4, -1], [4, 4, -1], [8, 8, -1]]), 'cost': 3})
     return out
@@ -84,7 +87,13 @@ def run_case(case, ctx):
             bad.append({'sig': 'window:%s:conversion-raises-%s' % ('iops' if case['reduce_iops'] else 'segyio', type(e).__name__),
                         'detail': 'window %s of %s (%s): %r' % ((a, b, c, d), (nI, nX), wcls, e)})
             continue
-        conv.convert_segy(sub, sname, rate, bs, reduce_iops=False, detection=det, mem_limit=mem)
+        one_line = b - a == 1 or d - c == 1
+        if one_line:
+            # (the sub-cube written alone is a single-line SEG-Y, which converts as a 2D line: no differential reference; the windowed file is
+            # still held to the truth below - axes, trace count, samples, headers, conformance)
+            strata.add('window-one-line-thick')
+        else:
+            conv.convert_segy(sub, sname, rate, bs, reduce_iops=False, detection=det, mem_limit=mem)
         npairs += 1
         if mem is not None and d - c < nX:
             strata.add('memory-fits-window-only')
@@ -105,7 +114,7 @@ def run_case(case, ctx):
         for x in bw:
             x['detail'] += ' [%s]' % where
         bad += bw
-        if bw:
+        if bw or one_line:
             continue
         sps = oracles.Spec(sname)
         if spw.shape != sps.shape or spw.ntr != sps.ntr or not np.array_equal(spw.ilines(), sps.ilines()) or not np.array_equal(spw.xlines(), sps.xlines()):
@@ -135,7 +144,7 @@ def run_case(case, ctx):
 def finalize(tier, cases, results, counters, strata):
     reasons = []
     need = ['win:il0:zero,xl0:zero', 'win:il0:zero,xl0:pos', 'win:il0:pos,xl0:zero', 'win:il0:pos,xl0:pos', 'reader:iops', 'reader:segyio',
-            'mode:thorough', 'mode:heuristic', 'mode:exhaustive', 'route:api', 'route:cli', 'upper:full', 'upper:inner', 'sorting:1', 'sorting:2', 'converter-reused', 'memory-fits-window-only', 'window-ordinals:numpy-int']
+            'mode:thorough', 'mode:heuristic', 'mode:exhaustive', 'route:api', 'route:cli', 'upper:full', 'upper:inner', 'sorting:1', 'sorting:2', 'converter-reused', 'memory-fits-window-only', 'window-ordinals:numpy-int', 'window-one-line-thick']
     for s in need:
         if s not in strata:
             reasons.append('required stratum not hit: ' + s)
